@@ -1701,6 +1701,32 @@ theorem afterConnect_trace (proxy : Bool) (s : Sys) : Quiet1 s (afterConnect pro
       quiet1_bind (spec_modS ?h3) (fun _ => runLoop_trace)) s1
     intro s; exact ext_same rfl
 
+/-- the selector's constructor raised: no byte is ever read, so no ProtocolError event at all -/
+theorem quiet_afterConnectNoSel (proxy : Bool) : Spec (Ext NotPE) (afterConnectNoSel proxy) := by
+  have hsel : Spec (Ext NotPE) selClose := by
+    intro s; unfold selClose; split
+    · exact ext_one (timers_notPE.nonEv _ rfl) rfl
+    · exact ext_same rfl
+  have hfin : ∀ x, Spec (Ext NotPE) (runFinally x) := by
+    intro x
+    unfold runFinally
+    refine spec_getS_bind (ext_po _) (fun s => spec_bind (ext_po _) ?_ (fun _ =>
+      spec_bind (ext_po _) hsel (fun _ => spec_throwE (ext_po _) _)))
+    split
+    · exact ext_closeSocket timers_notPE
+    · exact spec_pure (ext_po _) _
+  unfold afterConnectNoSel
+  refine spec_bind (ext_po _) (spec_modS (fun s => ext_same rfl)) (fun _ => spec_getS_bind (ext_po _) (fun s0 =>
+    spec_bind (ext_po _) (ext_write timers_notPE _ _) (fun r => ?_)))
+  split
+  · exact spec_bind (ext_po _) (ext_closeSocket timers_notPE) (fun _ => ext_yieldEv timers_notPE _ (by npe))
+  · refine spec_bind (ext_po _) (quiet_yieldConnected proxy) (fun _ =>
+      spec_bind (ext_po _) (spec_modS (fun s => ext_same rfl)) (fun _ => ?_))
+    unfold runLoopNoSel
+    refine spec_tryC (ext_po _) (spec_bind (ext_po _) ?_ (fun _ => hsel)) hfin
+    show Spec (Ext NotPE) (do closeSocket; yieldEv (.disconnected "error" false) : M Unit)
+    exact spec_bind (ext_po _) (ext_closeSocket timers_notPE) (fun _ => ext_yieldEv timers_notPE _ (by npe))
+
 theorem run_trace (s : Sys) : Quiet1 s (run s).state := by
   unfold run
   refine quiet1_bind (ext_yieldEv timers_notPE _ (by npe)) (fun _ =>
@@ -1709,6 +1735,7 @@ theorem run_trace (s : Sys) : Quiet1 s (run s).state := by
   | socketFail => exact Or.inl (ext_yieldEv timers_notPE _ (by npe) s1)
   | otherFail => exact Or.inl (ext_yieldEv timers_notPE _ (by npe) s1)
   | ok proxy => exact afterConnect_trace _ s1
+  | selFail proxy => exact Or.inl (quiet_afterConnectNoSel _ s1)
 
 /-- **whole connection**: the trace of a complete run contains no ProtocolError event, or exactly
     one, and then everything after it is `CalmV` -/
